@@ -23,6 +23,7 @@ Proof.
   destruct v as [|tv|]; try discriminate.
   rewrite extras_flat_attrs. change (1 <? length (@nil (name * pitem)))%nat with false. cbv iota.
   intros H. exists tv. split; [reflexivity|].
+  revert H. generalize (existsb (fun a : name * pitem => is_fallback (snd a)) (flat_attrs nls)) as hb. intros hb H.
   match type of H with ?GO _ tv None [] = _ =>
     assert (G : forall nls rem acc sc, GO (flat_attrs nls) rem None acc = Ok sc ->
                 (forall z w, env_get z acc = Some w -> env_get z sc = Some w) /\
@@ -30,7 +31,7 @@ Proof.
                 remaining_after (map fst nls) rem = []);
       [| destruct (G nls tv [] sc H) as (_ & A & B); split; assumption] end.
   clear H nls sc. induction nls as [|[n l] nls IH]; intros rem acc sc H.
-  - simpl in H. destruct rem; [|discriminate]. injection H as <-. repeat split; auto.
+  - simpl in H. destruct rem; [|destruct hb; discriminate]. injection H as <-. repeat split; auto.
   - simpl in H. destruct (tget n tv) as [x|] eqn:Eg; [|discriminate].
     destruct (bind_pat f rho (leaf_pat l) (D x)) as [sc0| | |] eqn:Eb; simpl in H; try discriminate.
     destruct (env_matched_update acc sc0) as [acc'|] eqn:Eu; simpl in H; [|discriminate].
